@@ -4,6 +4,19 @@ claimed / not_applicable partition is always consistent)."""
 import json
 
 CLAIMS = {
+ 'C06': dict(
+   text='PARTIAL (necessary conditions): the inputs of each merge are squared up and sorted by exactly the key the merge '
+        'compares unless presorted; keys_from_args is evaluated for all eight combinations of given / omitted key, lkey, '
+        'rkey; the two arms of the iterjoin merge loop and its two tail blocks are mirror images under l<->r; header and row '
+        'assembly agree with the hash joins; the merge loops compare Comparable keys and handle an exhausted side (no '
+        'ordering against the initial Comparable(None) sentinel, no two possibly exhausted next() in one statement, '
+        'guarded data-state next()). Each condition is necessary: breaking it loses, duplicates or mis-pads rows for some '
+        'pair of tables (e.g. a None key on the left with no rows on the right).',
+   ref='DESIGN.md §4 C06',
+   note='does NOT decide that the emitted rows are the relational result (cross product within a key group, multiplicities, '
+        'padding widths are value-level); crossjoin is not covered; relies on C05 for the sorts',
+   technique='mirror-symmetry check by AST rewriting (l<->r, <<->>), decision-table evaluation of the key ladder, '
+             'reuse of the C04 / C11 / C20 typestate obligations on the three merge iterators'),
  'C07': dict(
    text='PARTIAL (agreement of structure): the six join iterators (2 merge, 4 hash) compute key indices, carried-over '
         'right fields and the output header with the same expressions and assemble matched / left-only / right-only rows '
